@@ -141,13 +141,16 @@ class Ctx:
         return [p for p in ps if p.kind != 'unsupported'] if not allow_unsupported else ps
 
     # ---- discharge
-    def _check(self, hyps, goal, extra_terms=(), timeout=None):
+    def _check(self, hyps, goal, extra_terms=(), timeout=None, algebra=False):
         """returns (status, solver, seconds, model|None, smt2 text)"""
         hyps = [h for h in hyps if not (isinstance(h, bool) and h)]
         if any(isinstance(h, bool) and not h for h in hyps):
             return 'unsat', 'trivial', 0.0, None, ''
         neg = z3.Not(goal) if not isinstance(goal, bool) else z3.BoolVal(not goal)
-        lem = axioms.instantiate(list(hyps) + [neg] + list(extra_terms))
+        lem = axioms.instantiate(list(hyps) + [neg] + list(extra_terms), level='basic' if algebra else 'all')
+        if algebra is True:
+            allt, _ = axioms.abstract_ufs(list(hyps) + lem + [neg])
+            hyps, lem, neg = allt[:len(hyps)], allt[len(hyps):-1], allt[-1]
         s = z3.Solver()
         s.set('timeout', timeout or Z3_TIMEOUT_MS)
         s.set('random_seed', 0)
@@ -191,7 +194,7 @@ class Ctx:
         self.results.append(Obl(f'{self.clause}.{name}', st, 'z3', dt, kind='cover'))
         return r == z3.sat
 
-    def prove(self, name, hyps, goal, replay=None, inst=None, path=None, words=None, extra_terms=(), small=()):
+    def prove(self, name, hyps, goal, replay=None, inst=None, path=None, words=None, extra_terms=(), small=(), algebra=False):
         """discharge  hyps => goal.  `replay(model)` -> dict(confirmed=bool, inputs=..., observed=..., expected=...)"""
         full = f'{self.clause}.{name}'
         hyps = list(hyps)
@@ -199,7 +202,7 @@ class Ctx:
             outer, js = inst
             hyps += reduce_mod.instances(path.ex, outer, js)
         try:
-            st, solver, dt, m, smt2 = self._check(hyps, goal, extra_terms)
+            st, solver, dt, m, smt2 = self._check(hyps, goal, extra_terms, algebra=algebra)
         except z3.Z3Exception as e:
             self.results.append(Obl(full, 'undecided', 'z3', 0, {'reason': f'solver exception {e}'}))
             return False
@@ -210,12 +213,16 @@ class Ctx:
             self.results.append(Obl(full, 'proved', solver, dt, d))
             return True
         if st == 'unknown':
+            rep = self._native_refutation(replay)
+            if rep is not None:
+                self.results.append(Obl(full, 'violated', solver + '+native', dt, {'reason': 'solver returned unknown; the obligation\'s concrete oracle fails on the real code for in-domain inputs', 'replay': jsonable(rep), 'confirmed': True, 'words': words or ''}))
+                return False
             self.results.append(Obl(full, 'undecided', solver, dt, {'reason': 'solver returned unknown / timeout'}))
             return False
         # sat: a counter-model; prefer a small one for the replay
         if small:
             try:
-                st2, _, dt2, m2, _ = self._check(hyps + list(small), goal, extra_terms, timeout=5000)
+                st2, _, dt2, m2, _ = self._check(hyps + list(small), goal, extra_terms, timeout=5000, algebra=algebra)
                 if st2 == 'sat':
                     m = m2
             except z3.Z3Exception:
@@ -233,6 +240,152 @@ class Ctx:
         else:
             detail['confirmed'] = False
         self.results.append(Obl(full, 'violated', solver, dt, detail))
+        return False
+
+    def _native_refutation(self, replay):
+        """when the solver cannot decide: run the obligation's concrete oracle on default in-domain inputs (model=None).
+        A confirmed failure is reported as a violation with that input; anything else leaves the obligation undecided."""
+        if replay is None:
+            return None
+        try:
+            rep = replay(None)
+        except Exception:
+            return None
+        return rep if isinstance(rep, dict) and rep.get('confirmed') else None
+
+    def prove_congruent(self, name, hyps, a, b, replay=None, words=None, positive=(), pair_timeout=4000):
+        """prove a == b where both sides nest special functions: congruence closure modulo polynomial identities.
+        Innermost applications f(x), f(y) are identified when x == y is proved (a small arithmetic query each); identified
+        applications are replaced by one fresh constant carrying the function's sign/square facts; repeat outwards; the
+        final query is a polynomial identity.  Every identification is backed by an unsat answer, so the method is sound.
+        `positive`: terms known (hypothesis) to be > 0; used to give sqrt(t) a strict sign without its defining equation."""
+        full = f'{self.clause}.{name}'
+        t0 = time.time()
+        hyps = [h for h in hyps if not (isinstance(h, bool) and h)]
+        gsyms = _symbols([a, b])
+        hyps = [h for h in hyps if _symbols([h]) <= gsyms]
+        npos = len(positive)
+        terms = [z3.simplify(h) for h in hyps] + [z3.simplify(t) for t in positive] + [z3.simplify(a), z3.simplify(b)]
+        H = len(hyps)
+        signs, defs = [], []
+        nvar = nq = 0
+
+        def simple(h):
+            return not axioms.collect([h]) and not _has_uf(h) and _size(h) <= 12
+
+        def attempt(goal, level):
+            s = z3.Solver()
+            s.set('timeout', pair_timeout if level == 0 else pair_timeout // 2)
+            hy = [h for h in terms[:H] if simple(h)] if level == 0 else [h for h in terms[:H] if not axioms.collect([h]) and not _has_uf(h)]
+            s.add(*hy)
+            s.add(*signs)
+            if level > 0:
+                s.add(*defs)
+                s.add(*[t > 0 for t in terms[H:H + npos] if not axioms.collect([t])])
+            s.add(z3.Not(goal))
+            r = s.check()
+            if r == z3.sat and level == 0:
+                # a genuine refutation if the model also satisfies everything the stronger level would add
+                m = s.model()
+                heavy = [h for h in terms[:H] if not axioms.collect([h]) and not _has_uf(h)] + list(defs) + [t > 0 for t in terms[H:H + npos] if not axioms.collect([t])]
+                if all(z3.is_true(z3.simplify(m.eval(c, model_completion=True))) for c in heavy):
+                    return 'refuted'
+            return r
+
+        def quick(goal):
+            for level in (0, 1):
+                r = attempt(goal, level)
+                if r == z3.unsat:
+                    return True
+                if r == 'refuted' or (r == z3.sat and level == 1):
+                    return False
+            return False
+        for _ in range(16):
+            apps = axioms.collect(terms[-2:])
+            allapps = [t for ts in apps.values() for t in ts]
+            if not allapps:
+                break
+            inner = [t for t in allapps if not axioms.collect(list(t.children()))]
+            if not inner:
+                break
+            subs = []
+            by_decl = {}
+            for t in inner:
+                by_decl.setdefault(t.decl().name(), []).append(t)
+            for dn, ts in by_decl.items():
+                classes = []
+                for t in ts:
+                    for cl in classes:
+                        r = cl[0]
+                        nq += 1
+                        if quick(z3.And(*[t.arg(k) == r.arg(k) for k in range(t.num_args())])):
+                            cl.append(t)
+                            break
+                    else:
+                        classes.append([t])
+                for cl in classes:
+                    v = z3.Real(f'cc!{dn}!{nvar}') if cl[0].sort() == z3.RealSort() else z3.Int(f'cc!{dn}!{nvar}')
+                    nvar += 1
+                    x = cl[0].arg(0)
+                    if dn == 'sqrt':
+                        if z3.is_rational_value(x) and x.as_fraction() > 0:
+                            signs.append(v > 0)
+                            defs.append(v * v == x)
+                        else:
+                            ispos = False
+                            for pt in terms[H:H + npos]:
+                                nq += 1
+                                if pt.eq(x) or quick(pt == x):
+                                    ispos = True
+                                    break
+                            signs.append(v > 0 if ispos else v >= 0)
+                            defs.append(z3.Implies(x >= 0, v * v == x))
+                    elif dn in ('pow10', 'exp'):
+                        signs.append(v > 0)
+                    elif dn == 'erfc':
+                        signs += [v > 0, v < 2]
+                    elif dn == 'powr':
+                        defs.append(z3.Implies(x > 0, v > 0))
+                    for t in cl:
+                        subs.append((t, v))
+            terms = [z3.simplify(z3.substitute(x, *subs)) for x in terms]
+            defs = [z3.simplify(z3.substitute(x, *subs)) for x in defs]
+        r = attempt(terms[-2] == terms[-1], 0)
+        if r != z3.unsat:
+            s = z3.Solver()
+            s.set('timeout', Z3_TIMEOUT_MS)
+            s.add(*[h for h in terms[:H] if not axioms.collect([h]) and not _has_uf(h)])
+            s.add(*signs)
+            s.add(*defs)
+            s.add(terms[-2] != terms[-1])
+            r = s.check()
+            m = s.model() if r == z3.sat else None
+        dt = time.time() - t0
+        self.solver_time += dt
+        d = {'words': words or '', 'method': f'congruence closure modulo arithmetic: {nvar} function classes, {nq} identification queries'}
+        if r == z3.unsat:
+            self.results.append(Obl(full, 'proved', 'z3', dt, d))
+            return True
+        if r == z3.unknown:
+            rep = self._native_refutation(replay)
+            if rep is not None:
+                d.update(reason='identification failed and the final query is unknown; the obligation\'s concrete oracle fails on the real code for in-domain inputs', replay=jsonable(rep), confirmed=True)
+                self.results.append(Obl(full, 'violated', 'z3+native', dt, d))
+                return False
+            d['reason'] = 'final polynomial query unknown'
+            self.results.append(Obl(full, 'undecided', 'z3', dt, d))
+            return False
+        d['model'] = model_summary(m)
+        if replay is not None:
+            try:
+                rep = replay(m)
+            except Exception as e:
+                rep = {'confirmed': False, 'error': f'{type(e).__name__}: {e}'}
+            d['replay'] = jsonable(rep)
+            d['confirmed'] = bool(rep.get('confirmed'))
+        else:
+            d['confirmed'] = False
+        self.results.append(Obl(full, 'violated', 'z3', dt, d))
         return False
 
     def discharge_loop_obls(self, path, prefix='', replay=None):
@@ -265,6 +418,44 @@ class Ctx:
 
     def note(self, text):
         self.notes.append(text)
+
+
+def _symbols(ts):
+    seen, out, st = set(), set(), list(ts)
+    while st:
+        x = st.pop()
+        if x.get_id() in seen:
+            continue
+        seen.add(x.get_id())
+        if z3.is_app(x) and x.decl().kind() == z3.Z3_OP_UNINTERPRETED:
+            out.add(x.decl().name())
+        st.extend(x.children())
+    return out
+
+
+def _size(t, cap=64):
+    n, seen, st = 0, set(), [t]
+    while st and n <= cap:
+        x = st.pop()
+        if x.get_id() in seen:
+            continue
+        seen.add(x.get_id())
+        n += 1
+        st.extend(x.children())
+    return n
+
+
+def _has_uf(t):
+    seen, st = set(), [t]
+    while st:
+        x = st.pop()
+        if x.get_id() in seen:
+            continue
+        seen.add(x.get_id())
+        if z3.is_app(x) and x.decl().kind() == z3.Z3_OP_UNINTERPRETED and x.num_args() > 0:
+            return True
+        st.extend(x.children())
+    return False
 
 
 def model_summary(m, limit=40):
